@@ -1029,10 +1029,49 @@ def r_scalar_operands_keep_their_type(c):
                 "np.float64(2) is then inferred float32 where NumPy gives float64")
 
 
+def r_min_max_siblings(c):
+    """maximum and minimum are one function up to the comparison (greater / less):
+    the same dtype decision, the same NaN test, the same typed NaN.  Compared on the
+    normal form (helpers inlined, locals propagated), the comparison abstracted."""
+    m = c.model
+    fns = {}
+    for nm in ("maximum", "minimum"):
+        fd = m.normal(m.func("pytato.array." + nm))
+        body = [st for st in fd.body
+                if not (isinstance(st, ast.Expr) and isinstance(st.value, ast.Constant))]
+
+        class Abs(ast.NodeTransformer):
+            def visit_Name(self, x):
+                if x.id in ("greater", "less", "greater_equal", "less_equal"):
+                    return ast.Name(id="<cmp:" + ("g" if x.id.startswith("g") else "l")
+                                    + ("e" if x.id.endswith("equal") else "") + ">", ctx=x.ctx)
+                return x
+        import copy
+        txt = "\n".join(ast.unparse(Abs().visit(copy.deepcopy(st))) for st in body)
+        fns[nm] = txt
+    a = fns["maximum"].replace("<cmp:g>", "<cmp>").replace("<cmp:ge>", "<cmpe>")
+    b = fns["minimum"].replace("<cmp:l>", "<cmp>").replace("<cmp:le>", "<cmpe>")
+    fd = m.func("pytato.array.minimum")
+    diff = ""
+    if a != b:
+        la, lb = a.splitlines(), b.splitlines()
+        for x, y in zip(la, lb):
+            if x != y:
+                diff = f"maximum: `{x.strip()[:90]}` / minimum: `{y.strip()[:90]}`"
+                break
+        else:
+            diff = "different number of statements"
+    c.check(a == b, "R03-OPERATORS", "array.maximum/minimum", "same-code-up-to-the-comparison",
+            m.loc(m.module_of(fd), fd),
+            "maximum and minimum differ in more than the comparison they select by "
+            f"({diff}): one of them decides the result dtype or propagates NaN differently "
+            "from the other (and from NumPy, which treats the two alike)")
+
+
 SPEC = Spec(
     prop="C03",
     rules=[r_eager, r_axis, r_axis_total, r_splice, r_operators, r_slice, r_fold, r_broadcast, r_memo,
-           r_scalar_operands_keep_their_type],
+           r_scalar_operands_keep_their_type, r_min_max_siblings],
     floors={"R03-EAGER": 54, "R03-AXIS": 15, "R03-SPLICE": 2, "R03-OPERATORS": 30,
             "R03-SLICE": 3, "R03-FOLD": 10, "R03-MEMO": 7},
     explanation=(
@@ -1072,7 +1111,7 @@ SPEC = Spec(
         "(E, A), (E, 1), (A, 1)) on its four consistent abstract cases: equal -> keep, "
         "new length 1 -> keep, remembered length 1 -> take the new one, otherwise "
         "raise; one-way broadcasts into a given shape likewise. "
-        "R03-FOLD also: after a working copy of a parameter (dict(p), list(p)) was modified, the parameter is neither read nor re-bound (except from the copy). R03-OPERATORS also: the functions an operand passes through before dtype inference never convert it with .item()/.tolist()/int()/float()/complex()/bool() (NumPy promotes by the scalar's type)."),
+        "R03-FOLD also: after a working copy of a parameter (dict(p), list(p)) was modified, the parameter is neither read nor re-bound (except from the copy). R03-OPERATORS also: the functions an operand passes through before dtype inference never convert it with .item()/.tolist()/int()/float()/complex()/bool() (NumPy promotes by the scalar's type); maximum and minimum are the same code up to the comparison (normal forms compared)."),
     not_decided=(
         "dtype promotion, broadcast shapes, slice lengths and which exception type "
         "NumPy would raise: a differential statement against an external library's "
